@@ -7,7 +7,9 @@ git diff --stat -- naunet | tail -3
 T=$(timeout 1500 /venv/bin/python -m pytest -q -p no:cacheprovider --timeout=900 -q --deselect tests/console/commands/test_example.py::test_command_example --deselect tests/test_network.py::test_export_empty_network --deselect tests/test_network.py::test_export_network 2>&1 | tail -1)
 echo "tests(with change): $T"
 echo "demo with change: rc=$(run_demo)"
-git stash -q -- naunet
+# (not git stash: the stash is shared by all worktrees of a repository)
+git diff -- naunet > /tmp/confirm_seed_$$.diff
+git apply -R /tmp/confirm_seed_$$.diff
 echo "demo without change: rc=$(run_demo)"
-git stash pop -q
+git apply /tmp/confirm_seed_$$.diff; rm -f /tmp/confirm_seed_$$.diff
 git status --short | head -5
